@@ -22,7 +22,7 @@ class Scenario(apiworld.ApiWorld):
         self.loop.settle()
         self.t_init = self.loop.time()
         self.net.auto = None                 # from now on the environment resolves connects
-        self.used = {"loss": 0, "edit": 0, "refuse": 0, "adv": 0, "gs": 0, "mute": 0, "cmd": 0, "tick": 0, "acs": 0, "silent": 0}
+        self.used = {"loss": 0, "edit": 0, "refuse": 0, "adv": 0, "gs": 0, "mute": 0, "cmd": 0, "tick": 0, "acs": 0, "silent": 0, "failopen": 0}
         self.notified = []                   # (time, who, id) subscriber calls after init
         self.gs_sent = []                    # times at which the console sent a group/zone status (AT4 poll model)
         self.mute_gs = False
@@ -70,6 +70,8 @@ class Scenario(apiworld.ApiWorld):
             acts.append(("accept",))
             if self.used["refuse"] < 1:
                 acts.append(("refuse",))
+            if self.used["failopen"] < p.get("max_failopen", 0):
+                acts.append(("accept_failing",))     # accepted, but the first write (the refresh request) fails
             if self.used["adv"] < p.get("max_adv", 1):
                 for d in p.get("outages", (10.0, 31.0, 400.0)):
                     acts.append(("wait", d))
@@ -116,6 +118,16 @@ class Scenario(apiworld.ApiWorld):
         elif op == "refuse":
             self.used["refuse"] += 1
             self.net.resolve(False)
+        elif op == "accept_failing":
+            self.used["failopen"] += 1
+            orig = self.net.on_open
+
+            def arm(t, orig=orig):
+                orig(t)
+                t.fail_after = 0
+                self.net.on_open = orig
+            self.net.on_open = arm
+            self.net.resolve(True)
         elif op == "wait":
             self.used["adv"] += 1
             target = L.time() + a[1]
@@ -295,13 +307,13 @@ def run(tier, seed, part=None):
     if tier == "quick":
         plans = [({"max_tick": 3, "max_loss": 1, "max_edit": 1, "max_adv": 1, "poll": False}, 6, 0),
                  ({"max_tick": 4, "max_loss": 0, "max_edit": 0, "max_adv": 1, "poll": True}, 6, 0),
-                 ({"max_tick": 1, "max_loss": 2, "max_edit": 1, "max_adv": 0, "poll": False, "max_silent": 1}, 7, 0)]
+                 ({"max_tick": 1, "max_loss": 2, "max_edit": 1, "max_adv": 0, "poll": False, "max_silent": 1, "max_failopen": 1}, 7, 0)]
         cap = 45
     else:
         plans = [({"max_tick": 4, "max_loss": 2, "max_edit": 2, "max_adv": 2, "poll": False, "max_cmd": 1}, 8, 0),
                  ({"max_tick": 6, "max_loss": 1, "max_edit": 1, "max_adv": 2, "poll": True}, 8, 0),
                  ({"max_tick": 3, "max_loss": 1, "max_edit": 1, "max_adv": 1, "poll": True}, 6, 1),
-                 ({"max_tick": 2, "max_loss": 3, "max_edit": 1, "max_adv": 1, "poll": False, "max_silent": 1}, 9, 0)]
+                 ({"max_tick": 2, "max_loss": 3, "max_edit": 1, "max_adv": 1, "poll": False, "max_silent": 1, "max_failopen": 2}, 9, 0)]
         cap = 700
     for gen in (4, 5):
         for extra, depth, dev in plans:
